@@ -14,7 +14,8 @@ case kinds
   {"kind": "equiv", "rsmis": [..], "method": "RC"|"ITS"}                       AAMValidator.check_equivariant_graph on the graphs of the strings
   {"kind": "remap", "rsmi": r, "pvars": [[(new, old)..]..], "lvars": [[old..]..]}  CanonRSMI.remap_graph (both forms, error cases), get_aam_pairwise_indices
   {"kind": "records", "input": {str|list|other}, "col": c}                     BalanceReactionCheck.parse_input / dicts_balance_check on records
-  {"kind": "validate", "rows": [{gt, x, y, z}], "cols": [..], "method", "ia", "df"}  AAMValidator.validate_smiles: per column results / count / n
+  {"kind": "validate", "rows": [{gt, x, y, z}], "cols": [..], "method", "ia", "taut", "call", "df", "n_jobs"}  AAMValidator.validate_smiles: per column
+        results / count / n; oracle: every entry point (batch, check_pair keywords, direct) agrees for every flag combination
   {"kind": "subgraph", "rsmi": r, "side": 0|1, "keep": [ids]}                  NormalizeAAM.extract_subgraph / reset_indices_and_atom_map on a parsed side
   {"kind": "fixaam", "rsmi": r}                                                FixAAM.fix_aam_rsmi(r) parsed again = the graphs of r with every id + 1 (+ the norm oracle)
 
@@ -143,6 +144,21 @@ def _unexpanded_graphs(rsmi):
     if g is None or h is None:
         return None
     return g, h
+
+
+def _validate_call(case):
+    """AAMValidator.validate_smiles on the records of a `validate` case: list or DataFrame, options positional or by keyword,
+    both values of ignore_tautomers, n_jobs 1 or 2"""
+    from synkit.Chem.Reaction.aam_validator import AAMValidator
+    data = [dict(r) for r in case["rows"]]
+    if case.get("df"):
+        import pandas as pd
+        data = pd.DataFrame(data)
+    taut, nj = bool(case.get("taut", True)), int(case.get("n_jobs", 1))
+    if case.get("call", "pos") == "kw":
+        return AAMValidator.validate_smiles(data, ignore_tautomers=taut, mapped_cols=list(case["cols"]), ignore_aromaticity=case["ia"],
+                                            check_method=case["method"], ground_truth_col="gt", n_jobs=nj, verbose=0)
+    return AAMValidator.validate_smiles(data, "gt", list(case["cols"]), case["method"], case["ia"], nj, 0, taut)
 
 
 def _impl_valid(case):
@@ -418,12 +434,7 @@ def impl(case):
         return [[list(p) for p in CanonRSMI.get_aam_pairwise_indices(G, H)], [list(p) for p in c.get_aam_pairwise_indices(H, G, "atom_map")],
                 [run([tuple(p) for p in v]) for v in case["pvars"]], [run(list(v)) for v in case["lvars"]]]
     if k == "validate":
-        from synkit.Chem.Reaction.aam_validator import AAMValidator
-        data = [dict(r) for r in case["rows"]]
-        if case.get("df"):
-            import pandas as pd
-            data = pd.DataFrame(data)
-        res = AAMValidator.validate_smiles(data, "gt", list(case["cols"]), case["method"], case["ia"], 1, 0, True)
+        res = _validate_call(case)
         n = len(case["rows"])
         out = []
         for col, r in zip(case["cols"], res):
@@ -516,8 +527,8 @@ def coq_case(case):
             lv = "[" + "; ".join("[" + "; ".join(E.cN(a) for a in v) + "]" for v in case["lvars"]) + "]"
             return "run_helpers %s %s %s %s" % (E.coq_mgraph(E.from_nx(gh[0])), E.coq_mgraph(E.from_nx(gh[1])), pv, lv)
         if k == "validate":
-            if not ST.ascii_ok(case["method"]):
-                return None
+            if not ST.ascii_ok(case["method"]) or not case.get("taut", True):
+                return None                         # the tautomer path (RDKit enumeration) is judged by the oracle only
             memo = {}
 
             def opt(r):
@@ -871,15 +882,29 @@ def _oracle_balstr(case):
 
 
 def _oracle_validate(case):
-    """validate_smiles: every entry of every column is the reference verdict of (mapped, ground truth) of its record"""
+    """validate_smiles: every entry of every column is the reference verdict of (mapped, ground truth) of its record, and EVERY public
+    entry point gives the same verdict for the same options: the batch call, check_pair with keywords, and the direct call
+    (smiles_check, or smiles_check_tautomer when ignore_tautomers=False) - for every combination of the two flags and the method"""
     from synkit.Chem.Reaction.aam_validator import AAMValidator
-    res = AAMValidator.validate_smiles([dict(r) for r in case["rows"]], "gt", list(case["cols"]), case["method"], case["ia"], 1, 0, True)
+    res = _validate_call(case)
+    taut = bool(case.get("taut", True))
+    meth, ia = case["method"], case["ia"]
     fails = []
     for col, r in zip(case["cols"], res):
-        want = [_ref_check(dict(m=row[col], t=row["gt"], method=case["method"], ia=case["ia"])) for row in case["rows"]]
-        bad = [i for i, (w, g) in enumerate(zip(want, r["results"])) if w is not None and bool(g) != w]
-        if bad or len(r["results"]) != len(case["rows"]):
-            fails.append(_fail("validator-batch", "column %s: results %r, reference %r (%s, ia=%r)" % (col, list(r["results"]), want, case["method"], case["ia"])))
+        got = [bool(x) for x in r["results"]]
+        if len(got) != len(case["rows"]):
+            fails.append(_fail("validator-batch", "column %s: %d results for %d records" % (col, len(got), len(case["rows"]))))
+            continue
+        for i, row in enumerate(case["rows"]):
+            direct = (AAMValidator.smiles_check(row[col], row["gt"], meth, ia) if taut
+                      else AAMValidator.smiles_check_tautomer(row[col], row["gt"], meth, ia))
+            pair = AAMValidator.check_pair(dict(row), col, "gt", check_method=meth, ignore_aromaticity=ia, ignore_tautomers=taut)
+            if not (got[i] == bool(direct) == bool(pair)):
+                fails.append(_fail("validator-entry-points", "record %d column %s (%s, ignore_aromaticity=%r, ignore_tautomers=%r): validate_smiles %r, "
+                                   "check_pair(keywords) %r, direct call %r on %r vs %r" % (i, col, meth, ia, taut, got[i], pair, direct, row[col], row["gt"])))
+            want = _ref_check(dict(m=row[col], t=row["gt"], method=meth, ia=ia)) if taut else None
+            if want is not None and got[i] != want:
+                fails.append(_fail("validator-batch", "record %d column %s: result %r, reference %r (%s, ia=%r)" % (i, col, got[i], want, meth, ia)))
     return fails[:3]
 
 
@@ -994,6 +1019,14 @@ HAND_BALANCE = [
     "O=C=O>>[C-]#[O+].[O]", "CCO>>CC=O", "CCO>>CC=O.[H][H]", "[Fe+2]>>[Fe+3]", "C[N+](C)(C)C.[Cl-]>>CN(C)C.CCl",
 ]
 
+# Fischer esterification: ground truth, a renumbered / re-ordered writing of it, and the WRONG mapping with the carbonyl and the hydroxyl
+# oxygen of the acid transposed (it is the mapping of a tautomer of the ground truth)
+ESTER = ("[CH3:1][C:2](=[O:3])[OH:4].[CH3:5][CH2:6][OH:7]>>[CH3:1][C:2](=[O:3])[O:7][CH2:6][CH3:5].[OH2:4]",
+         "[OH:21][CH2:15][CH3:11].[OH:12][C:30](=[O:17])[CH3:14]>>[OH2:12].[CH3:11][CH2:15][O:21][C:30]([CH3:14])=[O:17]",
+         "[CH3:1][C:2](=[O:3])[OH:4].[CH3:5][CH2:6][OH:7]>>[CH3:1][C:2](=[O:4])[O:7][CH2:6][CH3:5].[OH2:3]")
+# benzene + H2 -> 1,3-cyclohexadiene / 1,4-cyclohexadiene: the centres differ only in bonds changing by less than 1
+AROM_PAIR = ("[cH:1]1[cH:2][cH:3][cH:4][cH:5][cH:6]1.[H:7][H:8]>>[CH:1]1=[CH:2][CH:3]=[CH:4][CH:5]([H:7])[CH:6]1[H:8]",
+             "[cH:1]1[cH:2][cH:3][cH:4][cH:5][cH:6]1.[H:7][H:8]>>[CH:1]1([H:7])[CH:2]=[CH:3][CH:4]([H:8])[CH:5]=[CH:6]1")
 PBV = ("[CH3:5][CH2:4][CH2:1][Br:2].[OH-:3]>>[CH3:5][CH2:4][CH2:1][OH:3].[Br-:2]",
        "[CH3:6][CH2:5][CH2:4][CH2:1][Br:2].[OH-:3]>>[CH3:6][CH2:5][CH2:4][CH2:1][OH:3].[Br-:2]")
 
@@ -1428,6 +1461,18 @@ def gen_cases(tier, rng):
         meth, ia = [("RC", False), ("ITS", False), ("rc", True), ("its", True), ("Rc", False)][n_ % 5]
         cases.append(dict(kind="validate", rows=rows, cols=["x", "y", "z"], method=meth, ia=ia, df=bool(n_ % 4), src="pool#%d" % n_))
     cases.append(dict(kind="validate", rows=[dict(gt=PBV[0], x=PBV[1], y=">>", z="C>>")], cols=["z", "x", "y"], method="rc", ia=False, src="hand"))
+    # the two flags must DISCRIMINATE: a wrong mapping that is the mapping of a tautomer of the ground truth (carbonyl / hydroxyl O of the
+    # acid transposed: rejected unless tautomers are enumerated), and two mappings whose centres differ only in aromatic-type bond
+    # changes (benzene -> 1,3- vs 1,4-cyclohexadiene: RC verdict False / True for ignore_aromaticity False / True); every combination of
+    # ignore_aromaticity x ignore_tautomers x method, options positional and by keyword, list and DataFrame, n_jobs 1 and 2
+    flag_rows = [dict(gt=ESTER[0], x=ESTER[1], y=ESTER[2], z=PBV[0]), dict(gt=AROM_PAIR[0], x=_rewrite(AROM_PAIR[0], rng), y=AROM_PAIR[1], z=AROM_PAIR[0])]
+    n_ = 0
+    for meth in ("RC", "ITS"):
+        for ia in (False, True):
+            for taut in (True, False):
+                n_ += 1
+                cases.append(dict(kind="validate", rows=flag_rows, cols=["x", "y", "z"], method=meth if n_ % 3 else meth.lower(), ia=ia, taut=taut,
+                                  call="kw" if n_ % 2 else "pos", df=bool(n_ % 3 == 0), n_jobs=2 if n_ == 5 else 1, src="flags#%d" % n_))
     cases.append(dict(kind="equiv", rsmis=[], method="RC", src="empty"))
     cases.append(dict(kind="equiv", rsmis=[HAND_CANON[2]], method="RC", src="single"))
     odd = ["a>>b>>c", "xx>>yy", "C>C", "", "C>>>C", ">>>>", "C.>>C", "[H+].[OH-]>>O>>O"]
